@@ -487,6 +487,8 @@ def build(spec, tsep="/", uid=True, fault=None):
             kw["uid"] = len(nodes)
             if len(nodes) % 3 == 2:
                 kw["box"] = ("v1", ["created"])      # an immutable value that HOLDS a mutable one (see `sig`)
+            # one attribute name with values of different kinds over the tree: a scalar on the first node, lists further down
+            kw["bag"] = None if not nodes else (["v%d" % len(nodes)] if len(nodes) % 2 else 0)
         if fault is not None and len(nodes) == fault:
             kw["resource"] = Uncopyable()
         n = Node(s[0], sep=tsep, **kw) if parent is None else Node(s[0], **kw)
@@ -720,7 +722,7 @@ def apply_op(op, onodes, rnodes, wrap):
 
 def pub_attrs(n):
     from bigtree import BinaryNode
-    skip = ["name", "uid", "box"] + (["val"] if isinstance(n, BinaryNode) else [])   # BinaryNode.val mirrors the name
+    skip = ["name", "uid", "box", "bag"] + (["val"] if isinstance(n, BinaryNode) else [])   # BinaryNode.val mirrors the name
     return dict(n.describe(exclude_attributes=skip, exclude_prefix="_"))
 
 
@@ -776,7 +778,7 @@ def impl(case):
 # ---------------------------------------------------------------- oracle (model-free)
 def sig(pool):
     return [(id(n), id(n.parent) if n.parent is not None else None, [id(c) if c is not None else None for c in n.children],
-             n.name, pub_attrs(n), repr(n.__dict__.get("box"))) for n in pool]
+             n.name, pub_attrs(n), repr(n.__dict__.get("box")), repr(n.__dict__.get("bag"))) for n in pool]
 
 
 def dag_sig(pool):
@@ -993,6 +995,9 @@ def oracle(case):
                 b = n.__dict__.get("box")
                 if isinstance(b, tuple):
                     b[1].append(what)
+                g = n.__dict__.get("bag")
+                if isinstance(g, list):
+                    g.append(what)
             if sig(theirs) != st:
                 msgs.append(f"{d['fn']}: an in-place change of a list held by an attribute of the {what} shows on the other side")
                 break
